@@ -42,91 +42,52 @@ TRANSLATE_FALLBACK = ("every fact read here except the add-before-remove order o
                       "violations in the quick batch")
 
 
-def _strip(src):
-    """comments out (strings of this file contain no //)"""
-    src = re.sub(r"/\*.*?\*/", "", src, flags=re.S)
-    return re.sub(r"//[^\n]*", "", src)
-
-
-def _fn_body(src, name):
-    """text of `fn <name>(...) ... { body }` (brace matched), or None"""
-    m = re.search(r"\bfn\s+%s\s*(<[^>]*>)?\s*\(" % re.escape(name), src)
-    if not m:
-        return None
-    i = src.find("{", m.end())
-    depth, j = 0, i
-    while 0 <= i and j < len(src):
-        if src[j] == "{":
-            depth += 1
-        elif src[j] == "}":
-            depth -= 1
-            if depth == 0:
-                return src[i + 1:j]
-        j += 1
-    return None
-
-
-def _fact(fails, body, where, what, ok, bad=()):
-    """a fact of the model read from `body`: some `ok` pattern found -> fine; a `bad` pattern found -> the source
-    says something else than the model (hard); neither -> the construct is not recognised (soft, see
-    TRANSLATE_FALLBACK)"""
-    if body is None:
-        fails.append("unreadable: %s: function not found (model assumes: %s)" % (where, what))
-        return
-    for pat in bad:
-        if re.search(pat, body, re.S):
-            fails.append("%s: %s -- the source now reads otherwise (/%s/)" % (where, what, pat))
-            return
-    if not any(re.search(pat, body, re.S) for pat in ok):
-        fails.append("unreadable: %s: cannot recognise the construct; the model assumes: %s" % (where, what))
+from props import _tutil as TU
 
 
 def translate():
-    """reads, by meaning, the facts of lib/src/tls.rs the model mirrors (identifiers of locals are free)"""
+    """reads, where they live, the facts of lib/src/tls.rs the model mirrors (props/_tutil.py: locals free, comments
+    stripped).  Found but reading otherwise = hard failure; not found at all = `unreadable:` only for the facts declared
+    soft (SOFT_TESTED), hard otherwise."""
     fails = []
     try:
-        t = _strip(open(os.path.join(vlib.REPO, "lib/src/tls.rs")).read())
+        t = TU.strip(open(os.path.join(vlib.REPO, "lib/src/tls.rs")).read())
     except OSError as ex:
         return ["lib/src/tls.rs cannot be read: %r" % (ex,)]
-    add = _fn_body(t, "add_certificate")
-    rem = _fn_body(t, "remove_certificate")
-    rep = _fn_body(t, "replace_certificate")
+    F = TU.fact
+    add, rem, rep = TU.fn_body(t, "add_certificate"), TU.fn_body(t, "remove_certificate"), TU.fn_body(t, "replace_certificate")
     tf = re.search(r"impl TryFrom<&AddCertificate> for CertifiedKeyWrapper \{(.*?)\n\}", t, re.S)
     tf = tf.group(1) if tf else None
-    W = r"[A-Za-z_][A-Za-z0-9_]*"
-    _fact(fails, add, "tls.rs add_certificate", "candidates sorted by expiration, ascending",
-          ok=[r"\.sort_by_key\(\|%s\|\s*%s\.1\)" % (W, W), r"\.sort_by\(\|(%s), (%s)\|\s*\1\.1\.cmp\(&\2\.1\)\)" % (W, W),
-              r"\.sort_unstable_by_key\(\|%s\|\s*%s\.1\)" % (W, W)],
-          bad=[r"\.sort_by_key\(\|%s\|\s*(std::cmp::)?Reverse\(" % W, r"\.sort_by\(\|(%s), (%s)\|\s*\2\.1\.cmp\(&\1\.1\)\)" % (W, W)])
-    _fact(fails, add, "tls.rs add_certificate", "the longest-lived candidate is the LAST of the sorted list",
-          ok=[r"\.last\(\)", r"\.iter\(\)\s*\.next_back\(\)", r"\.iter\(\)\s*\.max_by_key\(\|%s\|\s*%s\.1\)" % (W, W)],
-          bad=[r"sort[^;]*;(?:(?!\.last\(\)).)*?\.first\(\)"])
-    _fact(fails, add, "tls.rs add_certificate", "the trie is re-pointed: domains.remove(name) then domains.insert(name, longest-lived)",
-          ok=[r"domains\s*\.(domain_)?remove\(.*?domains\s*\.(domain_)?insert\("])
-    _fact(fails, add, "tls.rs add_certificate", "a fingerprint already stored returns early without touching anything",
-          ok=[r"if\s+self\.certificates\.contains_key\(&%s(\.fingerprint)?\)\s*\{\s*return Ok\(" % W,
-              r"if\s+self\.certificates\.get\(&%s(\.fingerprint)?\)\.is_some\(\)\s*\{\s*return Ok\(" % W,
-              r"let\s+(%s)\s*=\s*self\.certificates\.contains_key\(&%s(\.fingerprint)?\);\s*if\s+\1\s*\{\s*return Ok\(" % (W, W)])
-    _fact(fails, rem, "tls.rs remove_certificate", "the removed fingerprint is filtered out of the name's candidates",
-          ok=[r"\.retain\(\|%s\|\s*&?%s\.0\s*!=\s*\*?%s\)" % (W, W, W), r"\.retain\(\|\(%s, _\)\|\s*%s\s*!=\s*%s\)" % (W, W, W),
-              r"\.retain\(\|%s\|\s*\*?%s\s*!=\s*&?%s\.0\)" % (W, W, W)],
-          bad=[r"\.retain\(\|%s\|\s*&?%s\.0\s*==" % (W, W)])
-    _fact(fails, rem, "tls.rs remove_certificate", "the next longest-lived candidate (last of the list) is re-inserted in the trie",
-          ok=[r"\.last\(\).*?domains\s*\.(domain_)?insert\(", r"\.next_back\(\).*?domains\s*\.(domain_)?insert\("],
-          bad=[r"retain(?:(?!\.last\(\)).)*?\.first\(\)(?:(?!\.last\(\)).)*?domains\s*\.(domain_)?insert\("])
-    _fact(fails, rep, "tls.rs replace_certificate", "idempotent replace (old fingerprint == new fingerprint) returns without touching the store",
-          ok=[r"if\s+%s\s*==\s*%s\s*\{.*?return Ok\(" % (W, W)],
-          bad=[r"if\s+%s\s*==\s*%s\s*(\|\||&&)[^{]*\{" % (W, W)])
-    _fact(fails, rep, "tls.rs replace_certificate", "the new certificate is parsed (errors out) before anything is touched",
-          ok=[r"CertifiedKeyWrapper::try_from\(&%s\)\?.*?self\.add_certificate\(" % W])
-    _fact(fails, tf, "tls.rs TryFrom<&AddCertificate>", "names containing '/' are dropped, the others kept in their idna ASCII form (lower-case fallback)",
-          ok=[r"\.filter\(\|%s\|\s*!%s\.contains\('/'\)\).*?idna::domain_to_ascii\(&?%s\).*?to_ascii_lowercase\(\)" % (W, W, W),
-              r"\.retain\(\|%s\|\s*!%s\.contains\('/'\)\).*?idna::domain_to_ascii\(&?%s\).*?to_ascii_lowercase\(\)" % (W, W, W)])
+    F(fails, add, "tls.rs add_certificate", "the candidates of a name are sorted by expiration, ascending", r"\.sort\w*\(",
+      [r"\.sort_by_key\(\|%(W)s\|\s*%(W)s\.1\)", r"\.sort_unstable_by_key\(\|%(W)s\|\s*%(W)s\.1\)",
+       r"\.sort_by\(\|(%(W)s), (%(W)s)\|\s*\1\.1\.cmp\(&\2\.1\)\)"], 1, soft=True)
+    F(fails, add, "tls.rs add_certificate", "the longest-lived candidate is the LAST of the sorted list", r"\.(last|first|next_back|next|max_by_key|min_by_key)\(",
+      [r"\.last\(\)", r"\.iter\(\)\s*\.next_back\(\)"], 1, soft=True)
+    F(fails, add, "tls.rs add_certificate", "the trie is re-pointed: domains.remove(name) then domains.insert(name, longest-lived)",
+      r"self\s*\.domains\s*\.(domain_)?insert\(", [r"domains\s*\.(domain_)?remove\([^;]*;\s*self\s*\.domains\s*\.(domain_)?insert\("], 1)
+    F(fails, add, "tls.rs add_certificate", "a fingerprint already stored returns early without touching anything",
+      r"self\.certificates\.(contains_key|get)\(",
+      [r"if\s+self\.certificates\.contains_key\(&%(W)s(\.fingerprint)?\)\s*\{\s*return Ok\(",
+       r"if\s+self\.certificates\.get\(&%(W)s(\.fingerprint)?\)\.is_some\(\)\s*\{\s*return Ok\(",
+       r"let\s+(%(W)s)\s*=\s*self\.certificates\.contains_key\(&%(W)s(\.fingerprint)?\);\s*if\s+\1\s*\{\s*return Ok\("], 1)
+    F(fails, rem, "tls.rs remove_certificate", "the removed fingerprint is filtered out of the name's candidates", r"\.retain\(",
+      [r"\.retain\(\|%(W)s\|\s*&?%(W)s\.0\s*!=\s*\*?%(W)s\)", r"\.retain\(\|\(%(W)s, _\)\|\s*%(W)s\s*!=\s*%(W)s\)",
+       r"\.retain\(\|%(W)s\|\s*\*?%(W)s\s*!=\s*&?%(W)s\.0\)"], 1)
+    F(fails, rem, "tls.rs remove_certificate", "the next longest-lived candidate (last of the list) is re-inserted in the trie",
+      r"self\s*\.domains\s*\.(domain_)?insert\(",
+      [r"\.last\(\)\s*\{\s*self\s*\.domains\s*\.(domain_)?insert\(", r"\.last\(\)\s*\{\s*Some\(%(W)s\)\s*=>\s*\{\s*self\s*\.domains\s*\.(domain_)?insert\("], 1, soft=True)
+    F(fails, rep, "tls.rs replace_certificate", "idempotent replace (old fingerprint == new fingerprint, nothing else) returns without touching the store",
+      r"if\s+%(W)s\s*==\s*%(W)s", [r"if\s+%(W)s\s*==\s*%(W)s\s*\{"], 1, soft=True)
+    F(fails, rep, "tls.rs replace_certificate", "the new certificate is parsed (errors out) before anything is touched",
+      r"CertifiedKeyWrapper::try_from\(", [r"CertifiedKeyWrapper::try_from\(&%(W)s\)\?.*?self\s*\.add_certificate\("], 1)
+    F(fails, tf, "tls.rs TryFrom<&AddCertificate>", "names containing '/' are dropped", r"contains\('/'\)",
+      [r"\.filter\(\|%(W)s\|\s*!%(W)s\.contains\('/'\)\)", r"\.retain\(\|%(W)s\|\s*!%(W)s\.contains\('/'\)\)"], 1)
+    F(fails, tf, "tls.rs TryFrom<&AddCertificate>", "names are kept in their idna ASCII form, lower-cased when idna refuses them", r"idna::domain_to_ascii\(",
+      [r"idna::domain_to_ascii\(&?%(W)s\)\s*\.unwrap_or_else\(\|_\|\s*%(W)s\.to_ascii_lowercase\(\)\)",
+       r"match\s+(::)?idna::domain_to_ascii\(&?%(W)s\)\s*\{\s*Ok\((%(W)s)\)\s*=>\s*\2,\s*Err\(_\)\s*=>\s*%(W)s\.to_ascii_lowercase\(\)"], 1)
     # NOT observable (both orders reach the same final state): add-before-remove inside replace_certificate. Read by
     # position of the two calls (public method names); hard when it cannot be read.
-    if rep is None:
-        fails.append("lib/src/tls.rs: replace_certificate not found (add-before-remove cannot be established)")
-    else:
+    if rep is not None:
         ia = re.search(r"self\s*\.add_certificate\(", rep)
         ir = re.search(r"self\s*\.remove_certificate\(", rep)
         if not ia or not ir:
@@ -135,6 +96,11 @@ def translate():
         elif ir.start() < ia.start():
             fails.append("lib/src/tls.rs: replace_certificate removes the old certificate before it adds the new one (replace_no_gap)")
     return fails
+
+
+# facts declared soft above; for each, a breaking variant in an unrecognisable spelling was seen to exit 1 through the
+# correspondence run (harmless/C17_*_unreadable_changed.diff)
+SOFT_TESTED = ["sort direction / choice of the last", "re-insert of the next candidate on removal", "idempotent replace"]
 
 
 NAMES = [b"a.com", b"www.a.com", b"*.a.com", b"x.a.com", b"*.x.a.com", b"b.com", b"*.b.com", b"c.org", b"y.x.a.com"]
